@@ -236,6 +236,8 @@ def judge(program, w, res):
                         % (name, r, sorted(members), sorted(closure(r) & cancelled))))
         elif len(pos) > 1:
             bad.append(('twice', '%s for e%d fired %d times' % (name, r, len(pos))))
+        elif log[pos[0]][4] is None or log[pos[0]][4][0] is not True:
+            bad.append(('args', '%s for e%d does not carry the completed event as its first argument (%r)' % (name, r, log[pos[0]][4])))
         elif pos[0] < last:
             late = log[last]
             bad.append(('early:' + ('generator-step' if has_gen else 'plain'),
